@@ -50,10 +50,15 @@ type World struct {
 	holdCh              chan struct{}
 	holdOne             *sync.Once
 	auto                atomic.Bool // lift the holds when a shutdown releases the lock
-	panics              []string    // recovered from serve calls
-	udpCli              net.Conn
-	inh                 int // handlers inside (harness view)
-	entered             int
+	nBad                int
+	saved               struct {
+		l  net.Listener
+		pc net.PacketConn
+	}
+	panics  []string // recovered from serve calls
+	udpCli  net.Conn
+	inh     int // handlers inside (harness view)
+	entered int
 }
 
 func NewWorld(mode string, seed int64, gated bool, yield int, sum *hx.Summary) *World {
@@ -229,13 +234,22 @@ func startResult(err error, pan interface{}) string {
 }
 
 // Start launches a starter goroutine; the id is its process number in the specification.
-func (w *World) Start() int {
+// bad: a call that cannot succeed whatever the server holds -- ListenAndServe with an
+// unsupported Net, an unusable address, or TLS without certificates (no socket is opened).
+func (w *World) Start(bad bool) int {
 	w.mu.Lock()
 	w.nP++
 	p := w.nP
 	ch := make(chan string, 1)
 	w.startCh[p] = ch
+	w.nBad++
+	kind := w.nBad % 3
 	w.mu.Unlock()
+	v := 0
+	if bad {
+		v = 1
+	}
+	w.R.Emit(sched.Event{Ev: "start.call", P: p, V: v})
 	go func() {
 		role := sched.Role{Kind: "s", ID: p}
 		w.R.Bind(role)
@@ -244,9 +258,24 @@ func (w *World) Start() int {
 		var pan interface{}
 		func() {
 			defer func() { pan = recover() }()
-			err = w.Srv.ActivateAndServe()
+			if bad {
+				switch kind {
+				case 0:
+					w.Srv.Net, w.Srv.Addr = "bogus", ""
+				case 1:
+					w.Srv.Net, w.Srv.Addr = "tcp", "256.256.256.256:1"
+				default:
+					w.Srv.Net, w.Srv.Addr = "tcp-tls", "127.0.0.1:0"
+				}
+				err = w.Srv.ListenAndServe()
+			} else {
+				err = w.Srv.ActivateAndServe()
+			}
 		}()
 		res := startResult(err, pan)
+		if res == "err" && !w.R.Has("start.started", p) {
+			res = "fail" // the call failed before serving
+		}
 		what := "-"
 		if pan != nil {
 			what = fmt.Sprint(pan)
@@ -306,6 +335,45 @@ func (w *World) Expire(h int) {
 		w.R.Emit(sched.Event{Ev: "ctx.expire", H: h})
 		c()
 	}
+}
+
+// BreakConfig leaves the server without anything to serve on (nil listener / packet conn, or for
+// real UDP every other time an already closed *net.UDPConn); FixConfig puts the usable one back.
+// Like SetListener they may only be called while no call of the server is in progress.
+func (w *World) BreakConfig() {
+	w.saved.l, w.saved.pc = w.Srv.Listener, w.Srv.PacketConn
+	w.R.Emit(sched.Event{Ev: "h.break"})
+	w.Srv.Listener, w.Srv.PacketConn = nil, nil
+	w.nBad++
+	if w.Mode == "udp" && w.nBad%2 == 0 {
+		pc, err := net.ListenPacket("udp", "127.0.0.1:0")
+		if err != nil {
+			hx.Die("listen udp: %v", err)
+		}
+		pc.Close()
+		w.Srv.PacketConn = pc
+	}
+}
+
+func (w *World) FixConfig() {
+	w.R.Emit(sched.Event{Ev: "h.fix"})
+	w.Srv.Listener, w.Srv.PacketConn = w.saved.l, w.saved.pc
+}
+
+// Await waits for a result, or for the certainty that none will come (every goroutine blocked).
+func (w *World) Await(ch chan string) (string, bool) {
+	end := time.Now().Add(waitLong)
+	for time.Now().Before(end) {
+		if r, ok := recvTimeout(ch, 2*time.Millisecond); ok {
+			return r, true
+		}
+		if q, _ := sched.Quiet(); q {
+			if q2, _ := sched.Quiet(); q2 && len(ch) == 0 {
+				return "", false
+			}
+		}
+	}
+	return "", false
 }
 
 // SetListener assigns a fresh listener to srv.Listener (DEV3 of the specification:
@@ -491,6 +559,7 @@ func (w *World) Hang(what string, sc interface{}) {
 	if !ok {
 		hx.Die("%s did not return and the process is not quiescent:\n%s", what, stacksOf(snap))
 	}
-	w.sum.Mis("server/hang:"+what, what+" never returns: every goroutine is blocked\n"+stacksOf(snap),
+	key := strings.NewReplacer("(", "-", ")", "", " ", "-").Replace(what)
+	w.sum.Mis("server/hang:"+key, what+" never returns: every goroutine is blocked\n"+stacksOf(snap),
 		map[string]interface{}{"scenario": sc, "events": w.R.Events()})
 }
